@@ -1063,3 +1063,66 @@ where O: Observer<Out, Err>, F: FnMut(A, B) -> Out, A: Clone, B: Clone {
   fn complete(self) { if let Some(o) = self.rc_deref_mut().observer.take() { o.complete() } }
   fn is_finished(&self) -> bool { self.rc_deref().observer.as_ref().map_or(true, |o| o.is_finished()) }
 }
+
+// ---------------------------------------------------------------- C09.R-e
+/// debounce that leaves the previous timer running
+pub struct NoCancelDebounce<O, SD, Item> {
+  observer: MutArc<Option<O>>, scheduler: SD, delay: Duration,
+  trailing_value: MutArc<Option<Item>>, task_handler: MutArc<Option<TaskHandle<NormalReturn<()>>>>,
+}
+fn ctl_debounce_task<O, Item>((mut observer, value): (MutArc<Option<O>>, MutArc<Option<Item>>)) -> NormalReturn<()>
+where O: Observer<Item, Infallible> {
+  if let Some(value) = value.rc_deref_mut().take() { observer.next(value); }
+  NormalReturn::new(())
+}
+impl<Item, O, SD> Observer<Item, Infallible> for NoCancelDebounce<O, SD, Item>
+where
+  O: Observer<Item, Infallible>,
+  SD: Scheduler<crate::scheduler::OnceTask<(MutArc<Option<O>>, MutArc<Option<Item>>), NormalReturn<()>>>,
+{
+  fn next(&mut self, value: Item) {
+    *self.trailing_value.rc_deref_mut() = Some(value);
+    let task = crate::scheduler::OnceTask::new(ctl_debounce_task, (self.observer.clone(), self.trailing_value.clone()));
+    let handler = self.scheduler.schedule(task, Some(self.delay));
+    *self.task_handler.rc_deref_mut() = Some(handler);
+  }
+  fn error(self, err: Infallible) { self.observer.error(err) }
+  fn complete(self) { self.observer.complete() }
+  fn is_finished(&self) -> bool { self.observer.is_finished() }
+}
+
+// ---------------------------------------------------------------- C11.P-f
+/// a publisher that calls itself open as long as its slot is occupied, although its observer finished by itself
+pub struct StickyPublisher<O>(MutRc<Option<O>>);
+impl<Item, Err, O: Observer<Item, Err>> crate::subscriber::Publisher<Item, Err> for StickyPublisher<O> {
+  fn p_next(&mut self, value: Item) { self.0.next(value) }
+  fn p_error(self: Box<Self>, err: Err) { self.0.error(err) }
+  fn p_complete(self: Box<Self>) { self.0.complete() }
+  fn p_unsubscribe(self: Box<Self>) { self.0.rc_deref_mut().take(); }
+  fn p_is_closed(&self) -> bool { self.0.rc_deref().is_none() }
+}
+
+// ---------------------------------------------------------------- C13.Z5
+/// an operator whose hand-written Clone forgets part of its configuration
+pub struct ResettingOp<S, C> { source: S, seed: C }
+impl<S: Clone, C: Default> Clone for ResettingOp<S, C> {
+  fn clone(&self) -> Self { ResettingOp { source: self.source.clone(), seed: C::default() } }
+}
+
+// ---------------------------------------------------------------- C19.H8
+/// stores a new task handle over one that may still be pending (dropping a handle does not cancel its task)
+pub struct OverwritingHandles<SD> { scheduler: SD, task_handler: MutArc<Option<TaskHandle<NormalReturn<()>>>>, busy: bool }
+fn ctl_noop(_: ()) -> NormalReturn<()> { NormalReturn::new(()) }
+impl<SD> Observer<(), Infallible> for OverwritingHandles<SD>
+where SD: Scheduler<crate::scheduler::OnceTask<(), NormalReturn<()>>> {
+  fn next(&mut self, _value: ()) {
+    let idle = self.task_handler.rc_deref().as_ref().map_or(true, |h| h.is_closed());
+    if idle || self.busy {
+      let handler = self.scheduler.schedule(crate::scheduler::OnceTask::new(ctl_noop, ()), None);
+      *self.task_handler.rc_deref_mut() = Some(handler);
+    }
+  }
+  fn error(self, _err: Infallible) {}
+  fn complete(self) {}
+  fn is_finished(&self) -> bool { false }
+}
